@@ -12,6 +12,7 @@ func DefaultConfig() *Config {
 		MaxDecisions:  400,
 		MaxConcretize: 64,
 		Preemptions:   2,
+		Fallbacks:     []string{"z3-new", "cvc5"},
 		Intrinsics:    DefaultIntrinsics(),
 		PrefixNoop: []string{
 			"github.com/prometheus/",
@@ -31,7 +32,6 @@ func DefaultConfig() *Config {
 		DenyPrefix: []string{
 			"google.golang.org/protobuf/internal",
 			"google.golang.org/protobuf/reflect",
-			"google.golang.org/grpc/internal",
 			"reflect",
 			"internal/reflectlite",
 			"internal/abi",
@@ -53,6 +53,9 @@ func DefaultConfig() *Config {
 		c.InitAllow[p] = true
 	}
 	c.BuildFilter = func(path string) bool {
+		if path == "google.golang.org/grpc/internal/status" {
+			return true
+		}
 		for _, pre := range []string{"github.com/prometheus/", "google.golang.org/protobuf/internal", "google.golang.org/grpc/internal",
 			"go.opentelemetry.io/", "golang.org/x/net", "golang.org/x/sys", "google.golang.org/genproto", "net/", "crypto/tls", "crypto/x509",
 			"github.com/aws/", "cloud.google.com/", "github.com/klauspost", "github.com/go-jose", "github.com/jmespath", "go.uber.org",
